@@ -295,4 +295,66 @@ def families() -> dict[str, Family]:
         L("replace_table", "replace_table", lambda r: r.replace_table(t2, T("t2new"))),
         L("replace_table#1", "replace_table", lambda r: r.replace_table(t1, T("t1new"))),
     ])
+    _auto_labels(fams)
     return fams
+
+
+def _inner(f):
+    """the function wrapped by @builder"""
+    for c in getattr(f, "__closure__", None) or ():
+        try:
+            if inspect.isfunction(c.cell_contents):
+                return c.cell_contents
+        except ValueError:
+            pass
+    return None
+
+
+def _auto_labels(fams) -> None:
+    """Builder methods of the live package that the hand-written labels above do not reach (a method added after this
+    catalogue was written) get labels derived from their signature: every required positional parameter is filled from a
+    small palette (field / string / integer / table / criterion) and the first two palettes the method accepts on a fresh
+    seed become labels auto#<method>#<k>.  A method no palette satisfies stays uncovered and is reported in the evidence."""
+    import pypika_tortoise as P
+
+    have = set()
+    inst = {}
+    for fam in fams.values():
+        for sname, mk in fam.seeds.items():
+            try:
+                seed = mk()
+            except Exception:  # noqa
+                continue
+            inst[(fam.name, sname)] = seed
+            for lab in fam.labels.values():
+                have.add(owner(seed, lab.meth))
+    gaps = sorted(builder_methods() - have)
+    if not gaps:
+        return
+    t = P.Table("t1")
+    palette = [lambda: t.zz, lambda: "zz", lambda: 3, lambda: P.Table("tz"), lambda: t.zz == 1]
+    for cls, meth in gaps:
+        for fam in fams.values():
+            hit = [sn for sn in fam.seeds if (fam.name, sn) in inst and owner(inst[(fam.name, sn)], meth) == (cls, meth)
+                   and callable(getattr(inst[(fam.name, sn)], meth, None))]
+            if not hit:
+                continue
+            f = _inner(getattr(type(inst[(fam.name, hit[0])]), meth, None))
+            try:
+                params = list(inspect.signature(f).parameters.values())[1:] if f else []
+            except (TypeError, ValueError):
+                params = []
+            nreq = sum(1 for q in params if q.default is q.empty and q.kind in (q.POSITIONAL_ONLY, q.POSITIONAL_OR_KEYWORD))
+            nreq = nreq or (1 if any(q.kind == q.VAR_POSITIONAL for q in params) else 0)
+            found = 0
+            for k, mkarg in enumerate(palette if nreq else [None]):
+                def fn(r, mkarg=mkarg, meth=meth, nreq=nreq):
+                    return getattr(r, meth)(*[mkarg() for _ in range(nreq)])
+                try:
+                    fn(fam.seeds[hit[0]]())
+                except Exception:  # noqa
+                    continue
+                fam.labels[f"auto#{meth}#{k}"] = Label(f"auto#{meth}#{k}", meth, fn)
+                found += 1
+                if found == 2:
+                    break
